@@ -250,7 +250,10 @@ func confirms(c *Candidate, r *ReplayResult) bool {
 		}
 		return false
 	case "panic":
-		return r.Status == "panic" || r.Status == "crash"
+		// an engine-side memory-safety finding (pointer arithmetic leaving its object,
+		// invalid reinterpretation) corrupts memory natively instead of panicking: a
+		// failed native assertion on the same inputs confirms it
+		return r.Status == "panic" || r.Status == "crash" || (strings.HasPrefix(c.ID, "unsafe@") && len(r.Failed) > 0)
 	case "hang":
 		return r.Status == "hang" || (r.Status == "crash" && strings.Contains(r.Detail, "stack"))
 	case "race":
